@@ -341,7 +341,15 @@ def stepReq (d : DState) (f : List String) : DState × String :=
     let now := d.ck.now + opNo
     let ck : Clock := { d.ck with nows := now :: d.ck.nows }
     let verb := f.headD ""
-    let o := d.stepF d.cfg d.ar now d.s req
+    let o0 := d.stepF d.cfg d.ar now d.s req
+    -- the same comparison in the Increment path: a NaN result never equals the stored NaN, so the float
+    -- setter replaces the whole content (a uint32 slice hidden behind the number goes with it)
+    let o : Model.Out := match req, d.fltBitwise, o0.r, o0.s.live with
+      | .inc (.flt _) k _ _ _ _, false, .inc (.flt t b) true _, some i =>
+        if (ieee.feq t b b) then o0
+        else { o0 with s := { o0.s with live := some { i with recs := i.recs.map fun p =>
+                 if p.1 == k then (p.1, { p.2 with c := { p.2.c with slice := none } }) else p } } }
+      | _, _, _, _ => o0
     let before := Model.abs d.s
     let sp := Spec.step d.ar now before req0
     let after := Model.abs o.s
